@@ -60,6 +60,12 @@ CHECKS["C14"] = dict(
     technique="TLC model-checks an independent TLA+ codec, emits every state as a conformance case, and judges the real codec's traces",
     ref="5/C14")
 
+CHECKS["C15"] = dict(
+    text="spec/CfiEval.tla is the DWARF call-frame machine as driven by .cfi_* directives (one named action per directive, outcome Ok/CFIStateError/ValueError); TLC explores every directive sequence up to length 3 (quick) / 4 (thorough) over registers {1,2}, offsets {0,8,-8}, pointer encodings with/without symbol and escapes, plus a small alphabet to length 5/7 and simulated nested remember/restore runs, checks 11 spec invariants, and emits every path as a case; each path is replayed into the real evaluate_cfi_directives under five ABIs (copy at yield, projection after exhaustion) and judged by TLC against the pure evaluator CfiRun (spec/CfiEvalOps.tla): states, copies independent, error types.",
+    note="Bounded operands and lengths; escapes from a 7-entry catalogue (operand codecs belong to C14); x64-pe / ia32-pe procedures are out of domain (NotImplementedError for the return column). The ABI's default return column is taken as a parameter of the library, not judged. KF-C15-3 (.cfi_rel_offset semantics) is open and excused only when the spec under exactly that deviation predicts the run.",
+    technique="exhaustive TLC state graph of a TLA+ CFA machine, every path replayed into the real evaluator, TLC trace validation",
+    ref="5/C15")
+
 PENDING = {}
 
 
